@@ -31,9 +31,12 @@ def run(ck, an, tier):
     from sa.report import Renamed
     d = Renamed(ck, "C04:")          # delivery clauses, numbered as in C04
     C04.partitions(d, an)
+    C04.latency_plumbing(d, an)
     C04.nxt(d, an)
     from rules import C18 as _c18, ledger as _ledger
     _c18.s1(_ledger._Only(Renamed(ck, "C18:"), {"prices-table-untouched", "quote-time", "every-price-row"}), an)      # a quote is stamped with the time it was given for: nothing re-stamps the price table
+    # ... and the feature / price tables served are the specified functions of the given ones: rows keep their own dates (nothing re-dates, shifts or floors a row to an earlier step)
+    _c18.xy_init(_ledger._Only(Renamed(ck, "C18:"), {"feature-pipeline", "price-range", "transmitter-arguments", "published-X-is-served-X", "published-Y-is-served-Y"}), an)
     s3(ck, an)
     s4(ck, an)
     s5(ck, an)
